@@ -106,7 +106,8 @@ class RKAdaptiveStepSolver(object):
             errnorm = self._error_norm(self.K, hstep) / scale
             accepted = errnorm < 1
             if _vh.ENABLED:
-                _vh_h_in = h
+                _vh_h_in = h * 1  # copies: h is updated in place below and hstep may be the same tensor
+                _vh_hstep = hstep * 1
 
             # adjust the step size
             if accepted and not t1_achieved:
@@ -124,7 +125,7 @@ class RKAdaptiveStepSolver(object):
                 h = hstep * factor
 
             if _vh.ENABLED:
-                _vh.emit("ark.try", t0=t0, t1=t1, h_in=_vh_h_in, hstep=hstep, tnew=tnew, t1_achieved=t1_achieved,
+                _vh.emit("ark.try", t0=t0, t1=t1, h_in=_vh_h_in, hstep=_vh_hstep, tnew=tnew, t1_achieved=t1_achieved,
                          accepted=bool(accepted), prev_rejected=prev_rejected, h_out=h, errnorm=errnorm, solver=self,
                          y0=y0, f0=f0, ynew=ynew, fnew=fnew)
             prev_rejected = not accepted
